@@ -38,7 +38,15 @@ def mask_features(repo, fn):
     if not isinstance(idx, ast.Name):
         raise AnalysisError(f"{fn.qualname}: row index is not a simple name ({norm(idx) if idx is not None else None})")
     rows = idx.id
-    feat["parse"] = None
+    # positions = self._parse_rows_from_boolean(mask): the mask may be built under another name than the positions
+    for n in body_nodes(fn.node):
+        if isinstance(n, ast.Assign) and len(n.targets) == 1 and isinstance(n.targets[0], ast.Name) and n.targets[0].id == rows \
+                and isinstance(n.value, ast.Call) and isinstance(n.value.func, ast.Attribute) and n.value.func.attr.startswith("_parse_rows") \
+                and n.value.args and isinstance(n.value.args[0], ast.Name) and n.value.args[0].id != rows:
+            feat["parse"] = n.value.func.attr
+            rows = n.value.args[0].id
+            break
+    feat.setdefault("parse", None)
     feat["callable"] = None
     feat["acc_op"] = None
     feat["cmp_op"] = None
